@@ -1158,7 +1158,7 @@ func runC17(c *Ctx) int {
 	run.Extra("lttb_exhaustive_max_count", maxCount)
 	// 2. PRNG block beyond
 	lr := c.Rand("lttb")
-	for i, n := 0, c.Pick(20000, 400000); i < n; i++ {
+	for i, n := 0, c.Pick(60000, 400000); i < n; i++ {
 		count := maxCount + 1 + int(c17LogU(lr, 1, float64(5000-maxCount)))
 		if count > 5000 {
 			count = 5000
@@ -1215,7 +1215,7 @@ func runC17(c *Ctx) int {
 	// 3. plots through the API, 4. through the command
 	var specs []c17Spec
 	pr := c.Rand("plots")
-	nAPI := c.Pick(800, 40000)
+	nAPI := c.Pick(2500, 40000)
 	for i := 0; i < nAPI; i++ {
 		sp := c17Spec{Kind: "plot", Seed: pr.Int63(), Profile: "mixed", MaxN: 400}
 		switch {
